@@ -135,10 +135,10 @@ static int sim_usleep(unsigned int usec)
 	/* the loop has decided to sleep for usec: nothing may be runnable, nothing may fall due
 	 * before the end of the sleep (allowance: the few clock reads between the scheduler's
 	 * return and this call) */
-	if (yielder_runnable)
+	if (yielder_runnable && usec > 0)	/* usleep(0) delays nobody */
 		sim_fail(NULL, "OVERSLEPT:runnable", "the main loop called usleep(%u) while a fibre that had yielded was runnable", usec);
 	uint32_t allowance = 4 * code_cost + 2;
-	for (int i = 0; i < nsl; i++) {
+	for (int i = 0; i < nsl && usec > 0; i++) {
 		if (!sl[i]->pending)
 			continue;
 		int32_t until_due = (int32_t)(sl[i]->due - t);
